@@ -15,6 +15,8 @@ for d in /verif/seeded/${1:-*}/; do
   out=$(cd /verif && VERIF_REPO=$W VERIF_SEED=${VERIF_SEED:-555} bin/check $prop quick 2>&1)
   rc=$?
   nv=$(echo "$out" | grep -c "^VIOLATION")
+  km=$(python3 -c "import json;print(json.load(open('$d/meta.json')).get('known_miss',False))")
+  if [ "$km" = "True" ] && [ $rc = 0 ]; then echo "$n: KNOWN-MISS (documented in meta.json and DESIGN.md 11.6)"; rm -f /verif/replays/*/*-s${VERIF_SEED:-555}-*; continue; fi
   if [ $rc = 1 ] && [ $nv -gt 0 ]; then pass=$((pass+1)); echo "$n: CAUGHT ($nv) $(echo "$out" | grep -m1 '^  class' | cut -c1-120)"; else fail=$((fail+1)); echo "$n: NOT-CAUGHT rc=$rc $(echo "$out" | tail -1 | cut -c1-160)"; fi
   rm -f /verif/replays/*/*-s${VERIF_SEED:-555}-*
 done
